@@ -3,6 +3,7 @@ package mon
 import (
 	"fmt"
 	"strconv"
+	"strings"
 
 	gqlparser "github.com/vektah/gqlparser/v2"
 	"github.com/vektah/gqlparser/v2/ast"
@@ -20,6 +21,9 @@ import (
 // c04Typed: multi-source schema loads. Valid schemas: every position reachable from the loaded
 // *ast.Schema; faulted schemas: the location of the load error must be a token start of the file it names.
 func c04Typed(x *core.Ctx, r *core.Rand, rn *model.Renderer, i int) {
+	// the caller passes every fourth index (i%4 == 3): the variants are chosen on i/4, not on i (choosing on i%8 left the
+	// faulted loads unreachable; seeded change C04-H showed that no load error had ever been checked)
+	i = i / 4
 	if i%8 == 3 {
 		// a faulted document, rendered with hostile trivia, validated against a schema from another named source
 		items := tsys.Schema(r, &tsys.GenOpts{Descs: true, Small: true})
@@ -39,6 +43,17 @@ func c04Typed(x *core.Ctx, r *core.Rand, rn *model.Renderer, i int) {
 	if i%8 != 7 {
 		all := append(append([]tsys.Fault{}, tsys.Faults...), tsys.ExtraFaults...)
 		f := all[r.Intn(len(all))]
+		if i%8 == 1 {
+			// faults about TWO definitions (duplicates): the two may sit in different files, and an error that points at both
+			// has to be right about both
+			var pairs []tsys.Fault
+			for _, pf := range all {
+				if strings.HasPrefix(pf.Code, "dup-") || strings.HasPrefix(pf.Code, "multiple-") {
+					pairs = append(pairs, pf)
+				}
+			}
+			f = pairs[r.Intn(len(pairs))]
+		}
 		if out, _, ok := f.Inject(r, tsys.CloneItems(items)); ok {
 			items = out
 		}
@@ -46,6 +61,9 @@ func c04Typed(x *core.Ctx, r *core.Rand, rn *model.Renderer, i int) {
 	// shuffle whole items and cut into 1-4 sources, each rendered with its own hostile trivia
 	p := r.Perm(len(items))
 	k := 1 + r.Intn(4)
+	if i%8 == 1 && k == 1 {
+		k = 2
+	}
 	if k > len(items) {
 		k = len(items)
 	}
@@ -105,6 +123,7 @@ func c04CheckTyped(x *core.Ctx, c *core.Case) {
 	for _, s := range srcs {
 		if !pc.sources[s].lexOK {
 			x.Count("skipped:reference-cannot-lex")
+			x.Count("skipped:reference-cannot-lex(" + pc.sources[s].lexWhy + ")")
 			return
 		}
 	}
